@@ -8,6 +8,39 @@ ROOT = Path(__file__).resolve().parent.parent
 BASELINE_OFF = ("cd /repo && env -u PYOPENAPI_GEN_VERIF /venv/bin/python -m pytest -ra -q -p no:cacheprovider "
                 "--timeout=900 --continue-on-collection-errors")
 
+# what was added to a check's workload after its level text below was written (see DESIGN.md section 4, "As built")
+ADDED = {
+    "C01": "the exhaustive shape catalogue (every wrapper(wrapper(leaf)) as a model, a request body and a response body), compositional 'rich' documents, "
+           "recursive unions, dangling references, reusable components by $ref, 2XX ranges, pairs of clients sharing one core (incl. a prefix-named core).",
+    "C02": "the shape catalogue: one model per wrapper(wrapper(leaf)) shape (729 quick / 3 240 thorough), the field's annotation must have the shape's structural kind.",
+    "C03": "the shape catalogue (instances of every shape, every third property required, every seventh model with additionalProperties) and compositional 'rich' "
+           "documents; null entries of maps and null items of arrays are data, not absent optionals.",
+    "C04": "the shape catalogue as required JSON request bodies; path values that need percent-encoding judged on the raw request target; Content-Type of raw "
+           "bodies; float / uuid / date-time / integer-array / enum-array parameters; reusable components; a shared component parameter.",
+    "C05": "the shape catalogue as 200 response bodies; nullable bodies; vendor JSON media types; several content types on one response; 2XX ranges; reusable "
+           "component responses.",
+    "C06": "declared codes without a registered name; error bodies of every JSON shape; one component response under several codes; body-less success next to "
+           "a default response with content.",
+    "C07": "one operation listing two spellings of a tag; TRACE / OPTIONS; keyword operationIds; reusable components; 2XX ranges.",
+    "C08": "every reference-only graph on three schemas with >= 4 edges and a fixed sample of 400 mixed three-schema graphs in the quick tier.",
+    "C09": "prior run with another document, spec file rewritten in place in a warm process, prefix-named sibling cores, rich documents, discriminated unions.",
+    "C10": "four layouts incl. a prefix-named sibling core; existing trees whose client matches while only the core was edited / partially deleted.",
+    "C11": "six core configurations incl. cores whose directory name extends a client's.",
+    "C12": "relative imports resolved against the emitted tree; calls with error statuses inside the generator-blocked interpreter; stale shared cores; a "
+           "fresh-process generation emulating an ISO-8859-1 default text encoding.",
+    "C13": "several overloaded operations per tag, streaming non-primary responses, two spellings of a tag on one operation, tags never listed first, several "
+           "content types, 2XX ranges.",
+    "C14": "mapping orders, nullable discriminated unions, every payload list decoded a second time in reverse order; no two unions over one member set per document.",
+    "C15": "29 positions (request-body description, info.version, operationId, media types incl. a second one on a response), over-width unbroken tokens, every "
+           "pair of 14 character classes, text that looks like code.",
+    "C16": "enum leaves, swap key maps, null-key scan of the serialiser's output on cyclic graphs, enum failure injection.",
+    "C17": "request sequences, concurrent requests with schedule-dependent yields (arrival orders recorded), OAuth token rotation scripts, non-text header "
+           "values, falsy bodies, the async context manager.",
+    "C18": "invalid retry fields.",
+    "C19": "member order of every object of the paths tree shuffled; rich documents; reusable components and a shared component parameter.",
+    "C20": "Unicode identifier-syntax edge classes, keywords in every letter case, three-value enum chains (a / A / a_1).",
+}
+
 # id -> (category, technique, level text, level note, design ref)
 CHECKS = {
     "C15": ("exploration", "runtime monitoring: position x payload matrix through the real generator with AST-skeleton differential and literal read-back oracles",
@@ -168,6 +201,8 @@ def main() -> None:
         pid = p["id"]
         if pid in CHECKS and (ROOT / "vmon" / "props" / f"{pid.lower()}.py").exists():
             cat, tech, text, note, ref = CHECKS[pid]
+            if pid in ADDED:
+                text = text + " Added while building: " + ADDED[pid]
             checks.append({
                 "property_id": pid,
                 "quick_cmd": f"./check {pid} --tier quick",
